@@ -463,7 +463,7 @@ func main() {
 			RunPath: func(p []uint16) (uint64, explore.Status) { return runPath(c, p) }}
 	}
 	if r.Replay != "" {
-		r.Fault("replay: feed detail.operations to a term.VerifNew model of detail.initial_size; not implemented")
+		r.ReplayBySearch()
 	}
 	if _, _, arg, ok := r.Worker(); ok {
 		r.Watchdog(60 * time.Second)
